@@ -808,6 +808,19 @@ impl SvgElement {
     }
 
     fn bbox_raw(&self) -> Result<Option<BoundingBox>> {
+        // Elements are registered (so they can be referenced) before they are laid out.
+        // While any of these layout attributes remain, position and size have not been
+        // resolved yet - e.g. it is waiting on a forward reference - and the native
+        // attributes present so far don't describe where the element will end up.
+        const UNRESOLVED_ATTRS: &[&str] = &[
+            "xy", "cxy", "xy1", "xy2", "xy-loc", "dxy", "wh", "dwh", "dw", "dh", "rxy", "surround",
+            "inside", "start", "end",
+        ];
+        if let Some(attr) = UNRESOLVED_ATTRS.iter().find(|a| self.has_attr(a)) {
+            return Err(SvgdxError::MissingBoundingBox(format!(
+                "{self} ('{attr}' not yet resolved)"
+            )));
+        }
         // For SVG 'Basic shapes' (e.g. rect, circle, ellipse, etc) for x/y and similar:
         // "If the attribute is not specified, the effect is as if a value of "0" were specified."
         // The same is not specified for 'size' attributes (width/height/r etc), so we require
